@@ -125,18 +125,19 @@ Definition dec (n : Z) : list Z :=
   else if n <? 1000 then digits_n 3 n else if n <? 10000 then digits_n 4 n
   else if n <? 100000 then digits_n 5 n else digits_n 6 n.
 
-(* time of day / offset magnitude t >= 0 seconds as h[:mm[:ss]]; hours >= 100 always with :mm
-   (a bare 3-digit hour is not accepted by dateutil) *)
+(* The canonical rendering always writes every optional part: offsets as [+-]h:mm (dateutil's
+   offset grammar has no seconds), rule times as h:mm:ss.  Shorter forms (h, hh, hhmm, omitted
+   /time, omitted sign, omitted dst offset) are exercised by the correspondence. *)
 Definition render_hms (t : Z) : list Z :=
-  let h := t / 3600 in let m := (t / 60) mod 60 in let s := t mod 60 in
-  if negb (s =? 0) then dec h ++ [58] ++ digits_n 2 m ++ [58] ++ digits_n 2 s
-  else if negb (m =? 0) || (100 <=? h) then dec h ++ [58] ++ digits_n 2 m
-  else dec h.
+  dec (t / 3600) ++ [58] ++ digits_n 2 ((t / 60) mod 60) ++ [58] ++ digits_n 2 (t mod 60).
 
-(* offset east of UTC -> POSIX west-positive text *)
+Definition render_hm (t : Z) : list Z :=
+  dec (t / 3600) ++ [58] ++ digits_n 2 ((t / 60) mod 60).
+
+(* offset east of UTC -> POSIX west-positive text with explicit sign *)
 Definition render_off (east : Z) : list Z :=
   let v := - east in
-  if v <? 0 then [45] ++ render_hms (- v) else render_hms v.
+  if v <? 0 then [45] ++ render_hm (- v) else [43] ++ render_hm v.
 
 Definition render_date (d : drule) : list Z :=
   match d with
